@@ -52,6 +52,9 @@ Fold(s, es, n) == IF n = 0 THEN s ELSE ApplyEdit(Fold(s, es, n - 1), es[n])
 FileState(es) == Fold(EmptyState, es, Len(es))
 JState(j) == [strs |-> SeqSet(j.strs), info |-> j.info]
 SameState(a, b) == a.strs = b.strs /\ DOMAIN a.info = DOMAIN b.info /\ \A k \in DOMAIN a.info : a.info[k] = b.info[k]
+\* after any recovery the manifest takes one more edit (add "after-recovery") and a reopen shows exactly that
+AfterOk(m) == /\ Has(m, "after") /\ Has(m.after, "strs")
+              /\ SameState(JState(m.after), ApplyEdit(JState(m.state), [add |-> {"after-recovery"}, rm |-> {}, info |-> <<>>]))
 
 \* What a reopen may yield: every acknowledged edit applied, every edit whose call failed or had not
 \* returned applied completely or not at all, in order, and nothing else.
@@ -194,6 +197,7 @@ MRecovered == /\ IsMark("recovered")
                     /\ G("recovery reads what the surviving MANIFEST holds",
                          SameState(s, IF Exists("MANIFEST") THEN FileState(Content("MANIFEST")) ELSE EmptyState))
                     /\ G("after recovery the fragments chain without gaps (C13)", faulted \/ Ev.mark.verify_errors = <<>>)
+                    /\ G("the recovered manifest takes a further edit and replays exactly it (C13)", AfterOk(Ev.mark))
               /\ UNCHANGED <<dir, ino, nextino, mem, hist, acked, pending, faulted, phase>>
 
 \* truncation campaign on the manifest at rest
@@ -208,8 +212,9 @@ MCutRecovered == /\ IsMark("cut-recovered")
                         ends == (CHOOSE k \in 1..l : Rec[k].call = "mark" /\ Rec[k].mark.op = "cut-begin" /\ \A j \in (k+1)..l : ~(Rec[j].call = "mark" /\ Rec[j].mark.op = "cut-begin"))
                         e == Rec[ends].mark.edit_ends
                         n == WholeEdits(m.cut, e)
-                    IN G("a cut yields the state after a prefix of whole edits, never part of one (C13)",
-                         \E j \in 0..n : SameState(JState(m.state), FileState(SubSeq(Content("MANIFEST"), 1, j))))
+                    IN /\ G("a cut yields the state after a prefix of whole edits, never part of one (C13)",
+                            \E j \in 0..n : SameState(JState(m.state), FileState(SubSeq(Content("MANIFEST"), 1, j))))
+                       /\ G("after a cut the manifest takes a further edit and replays exactly it, no part of the torn edit (C13)", AfterOk(m))
                  /\ UNCHANGED <<dir, ino, nextino, mem, hist, acked, pending, faulted, phase>>
 MCutErr == /\ IsMark("cut-recover-err")
            /\ LET m == Rec[l].mark
